@@ -155,12 +155,13 @@ def _alph(tier):
 def cases(tier):
     a = _alph(tier)
     out = []
+    # direction cases first (cheap; explored even if a time cap stops the run early)
+    for sigma, dx, dy, length in itertools.product(a["sigma"], a["div"], a["div"], a["length"]):
+        out.append({"kind": "dir", "sigma": sigma, "divx": dx, "divy": dy, "length": length, "label": "direction"})
     for kind, place, e, p, el, length, step in itertools.product(a["plasma"], a["place"], a["energy"], a["power"],
                                                                  a["element"], a["length"], a["step"]):
         out.append({"kind": "main", "plasma": kind, "place": place, "energy": e, "power": p, "element": el, "length": length,
                     "step": step, "sigmas": a["sigma"], "divs": a["div"], "clamps": a["clamp"], "label": "main:" + kind})
-    for sigma, dx, dy, length in itertools.product(a["sigma"], a["div"], a["div"], a["length"]):
-        out.append({"kind": "dir", "sigma": sigma, "divx": dx, "divy": dy, "length": length, "label": "direction"})
     return out
 
 
